@@ -38,7 +38,7 @@ type c08Dest struct {
 }
 
 func C08_Jobs() []string {
-	return []string{"struct/parse", "struct/validate", "prims/parse", "prims/validate", "slice/parse", "collect", "derived", "json", "collect-orders", "i18n", "time-strings", "large-results"}
+	return []string{"struct/parse", "struct/validate", "prims/parse", "prims/validate", "slice/parse", "collect", "derived", "json", "collect-orders", "i18n", "time-strings", "large-results", "preprocess-roots"}
 }
 func C08_Covers() []string { return []string{"ran"} }
 
@@ -239,6 +239,30 @@ func C08_Run(job string) {
 			second := st.Parse(input(k+3), &d2)
 			check(second, k+3)
 			check(first, k)
+		})
+		v.Unfreeze()
+	case "preprocess-roots":
+		// Preprocess has a front end of its own and may wrap a list (of lists): the paths of
+		// overlapping executions stay their own
+		sl := z.Preprocess(func(in []any, c z.Ctx) ([]int, error) { return []int{1, 9, 2}, nil }, z.Slice(z.Int().GT(5)))
+		ll := z.Preprocess(func(in string, c z.Ctx) ([][]int, error) { return [][]int{{9}, {9, 1}}, nil }, z.Slice(z.Slice(z.Int().GT(5))))
+		v.Freeze(sl)
+		v.Freeze(ll)
+		v.Concurrently(3, func(k int) {
+			var d []int
+			e1 := sl.Parse([]any{}, &d)
+			var dd [][]int
+			e2 := ll.Parse("x", &dd)
+			paths := func(l z.ZogIssueList) string {
+				out := ""
+				for _, i := range l {
+					out += i.Path + ";"
+				}
+				return out
+			}
+			if paths(e1) != "[0];[2];" || paths(e2) != "[1][1];" {
+				v.Flag()
+			}
 		})
 		v.Unfreeze()
 	case "collect-orders":
